@@ -124,6 +124,16 @@ func c17pkiInit() {
 			p.caPEM[id] = cpem
 			os.WriteFile(filepath.Join(dir, "ca"+id+".pem"), cpem, 0o600)
 		}
+		// the process's SYSTEM roots: one unrelated CA of our own (crypto/x509 reads SSL_CERT_FILE / SSL_CERT_DIR on
+		// first use), so that "the configured ca pins trust" is observable: a pool built from a `ca` file must not
+		// contain it, and a peer certified by it must be refused where a `ca` is configured
+		{
+			_, c, k, cpem, _ := c17newCert(caT("mvh C17 SYSTEM root"), nil, nil)
+			cas["sys"] = ca{c, k}
+			os.WriteFile(filepath.Join(dir, "sysroots.pem"), cpem, 0o600)
+			os.Setenv("SSL_CERT_FILE", filepath.Join(dir, "sysroots.pem"))
+			os.Setenv("SSL_CERT_DIR", filepath.Join(dir, "no-such-dir"))
+		}
 		good := now.AddDate(1, 0, 0)
 		mk := func(kind, caID, name string, notAfter time.Time, pair string) {
 			var tc tls.Certificate
